@@ -273,6 +273,7 @@ func init() {
 		k.PSave = 3
 		k.PCall = 3
 		k.PWorldFallback = 40
+		k.PWeirdAccount = 2
 		if tier == "thorough" {
 			k.MaxDepth = 4
 			k.MaxWidth = 5
@@ -297,6 +298,16 @@ func checkC05(c any) *ev.Verdict {
 	outcomeLabel(b.real, v)
 	if b.real.Panic != "" || b.real.ParseErrors > 0 {
 		v.Skipped = "panic or parse error (C12/C14 own these)"
+		return v
+	}
+	if b.m.Err != nil && b.m.Err.Class == model.EInvalidAccountName {
+		// an account variable whose text is not an account name (empty, the kept marker...):
+		// nothing may be credited to it, the run has to be refused
+		v.NonTrivial = true
+		v.Label("invalid-account-name")
+		if b.real.ErrClass != model.EInvalidAccountName {
+			return v.Failf("invalid-account", "an account variable holds a text that is not an account name (%s) but execution gives %s", b.m.Err.Msg, b.real.Summary())
+		}
 		return v
 	}
 	if b.m.Err != nil && b.m.Err.Class != model.EMissingFunds {
